@@ -246,15 +246,19 @@ func traceHedge(maxHedges int, conds string, spec []string) string {
 		emu.Unlock()
 		f := strings.Split(spec[min(j, len(spec)-1)], ":")
 		c := f[1] == "1"
+		var ferr error
+		if len(f) > 2 && f[2] == "1" {
+			ferr = errX // the attempt's outcome carries an error next to its value: it wins or loses like any other
+		}
 		waitOrCancel(e, time.Duration(atoi(f[0]))*time.Microsecond)
 		rec.stamp(fmt.Sprintf("finish:%d:%s", j, b01(c || conds == "any")))
 		if c {
-			return 101 + 2*j, nil
+			return 101 + 2*j, ferr
 		}
-		return 100 + 2*j, nil
+		return 100 + 2*j, ferr
 	}
 	val, err := failsafe.NewExecutor[int](b.Build()).GetWithExecution(fn)
-	if err != nil {
+	if err != nil && !errors.Is(err, errX) {
 		return "unexpected-error:" + strings.ReplaceAll(err.Error(), " ", "_")
 	}
 	rec.stamp(fmt.Sprintf("ret:%d", (val-100)/2))
@@ -318,7 +322,7 @@ func init() {
 						mh := r.Intn(4)
 						var spec []string
 						for j := 0; j <= mh; j++ {
-							spec = append(spec, fmt.Sprintf("%d:%d", pick(r, 0, 100, 350, 450, 700, 1200, 2000), r.Intn(2)))
+							spec = append(spec, fmt.Sprintf("%d:%d:%d", pick(r, 0, 100, 350, 450, 700, 1200, 2000), r.Intn(2), pick(r, 0, 0, 1)))
 						}
 						emit(fmt.Sprintf("trace hedge %d %s %s", mh, pick(r, "any", "odd", "odd"), strings.Join(spec, " ")))
 					}
